@@ -119,6 +119,12 @@ func (w *world) one(k kase, r *engine.Report) (string, string) {
 		req.ClientStateSignature = w.keys[k.State].Sign(stateBytes)
 	case "unsigned":
 		req.ClientState = stateBytes
+	case "sig-1-byte", "sig-63-bytes", "sig-65-bytes":
+		// a state signature of a length no ed25519 signature has
+		var n int
+		fmt.Sscanf(k.State, "sig-%d", &n)
+		req.ClientState = stateBytes
+		req.ClientStateSignature = append(w.keys["K1"].Sign(stateBytes), 0)[:n]
 	}
 	var storage nodeenrollment.Storage = st
 	switch k.Path {
@@ -254,7 +260,7 @@ func (w *world) one(k kase, r *engine.Report) (string, string) {
 
 func sigClass(s string, lookup []string) string {
 	switch s {
-	case "missing", "empty-nonce", "absent", "unsigned":
+	case "missing", "empty-nonce", "absent", "unsigned", "sig-1-byte", "sig-63-bytes", "sig-65-bytes":
 		return s
 	case "U":
 		return "unregistered-key"
@@ -279,7 +285,7 @@ func cases(seed int64, emit func(kase)) {
 		for _, l := range lists {
 			for _, claimed := range []string{"K1", "U", "KE"} {
 				for _, nonce := range []string{"K1", "K2", "U", "missing", "empty-nonce"} {
-					for _, state := range []string{"absent", "K1", "K2", "U", "unsigned"} {
+					for _, state := range []string{"absent", "K1", "K2", "U", "unsigned", "sig-1-byte", "sig-63-bytes", "sig-65-bytes"} {
 						for _, skip := range []bool{false, true} {
 							emit(kase{path, l, claimed, nonce, state, skip, seed})
 						}
@@ -331,7 +337,7 @@ func init() {
 	engine.Register(&engine.CheckDef{
 		ID:    "C05",
 		Level: "exploration",
-		Rule: "full product: lookup path {key id, node id on a NodeIdLoader that reports an empty result as ErrNotFound / as an empty set, node id on a plain Storage, node id on the library's store-once back end with the remaining records under a node id differing in letter case only} x every ordered subset of three records under the node id (16 lists) and of two records plus one whose stored key is not an ed25519 key (11 lists) x claimed key {registered, unregistered, the non-ed25519 key} x nonce signer {K1, K2, unregistered, missing, empty nonce} x client state {absent, signed by K1 / K2 / unregistered, unsigned} x skip_verification {false,true} = 20250 calls of the real GenerateServerCertificates against a reference predicate; " +
+		Rule: "full product: lookup path {key id, node id on a NodeIdLoader that reports an empty result as ErrNotFound / as an empty set, node id on a plain Storage, node id on the library's store-once back end with the remaining records under a node id differing in letter case only} x every ordered subset of three records under the node id (16 lists) and of two records plus one whose stored key is not an ed25519 key (11 lists) x claimed key {registered, unregistered, the non-ed25519 key} x nonce signer {K1, K2, unregistered, missing, empty nonce} x client state {absent, signed by K1 / K2 / unregistered, unsigned, with a 1- / 63- / 65-byte signature} x skip_verification {false,true} = 32400 calls of the real GenerateServerCertificates against a reference predicate; " +
 			"distinct_nontrivial counts the cases (distinct by construction) with verification not waived",
 		Assumptions: []string{"a forged signature is a signature by another pool key or a missing one"},
 		Shards:      func(c *engine.Ctx) int { return 4 },
